@@ -349,7 +349,39 @@ func scPoor() Scenario {
 	return sc
 }
 
+// aParam: a chain parameter changed the way a passed governance proposal changes it (x/params subspace update, no module code involved).
+func aParam(module, key string, label string, val interface{}) Action {
+	return Action{Name: fmt.Sprintf("ParamChange(%s.%s=%s)", module, key, label), Kind: "ParamChange",
+		Do: func(w *World, st State) (res TxResult) {
+			defer func() {
+				if r := recover(); r != nil {
+					res = TxResult{Err: fmt.Sprintf("panic: %v", r), Panic: true}
+				}
+			}()
+			w.App.GetSubspace(module).Set(st.Ctx, []byte(key), val)
+			return TxResult{OK: true}
+		}}
+}
+
+// S-params: chain parameters change while the marketplace is in use; every transaction is also re-executed on a freshly
+// started application instance (GenesisParams.RestartCheck).
+func scParams() Scenario {
+	sc := Scenario{Name: "S-params", GP: GenesisParams{DeploymentMinDeposit: 10, BidMinDeposit: 5, Funds: 1000, StartHeight: 5, RestartCheck: true}}
+	sc.Preamble = []Action{aProvider("CreateProvider", "P1", nil, "none"), aProvider("CreateProvider", "P2", nil, "none"), aCreateDeployment("T1", 1, 1, 3, 10, noReq)}
+	b1, b2 := bidRef{"T1", 1, 1, 1, "P1"}, bidRef{"T1", 1, 1, 1, "P2"}
+	sc.Alphabet = []Action{
+		aParam("market", "BidMinDeposit", "7uakt", sdk.NewInt64Coin(denom, 7)),
+		aParam("market", "OrderMaxBids", "1", uint32(1)),
+		aParam("deployment", "DeploymentMinDeposit", "12uakt", sdk.NewInt64Coin(denom, 12)),
+		aCreateBid(b1, 2, 5), aCreateBid(b1, 2, 7), aCreateBid(b2, 2, 7), aBidOp("CloseBid", b1),
+		aCreateDeployment("T1", 2, 1, 3, 10, noReq), aCreateDeployment("T1", 3, 1, 3, 12, noReq),
+		aBidOp("CreateLease", b1), aCloseDeployment("T1", 1), aNext(1),
+	}
+	return sc
+}
+
 var scenarioTable = map[string]func() Scenario{
+	"S-params": scParams,
 	"S-poor":   scPoor,
 	"S-escrow": scEscrow,
 	"S-leased": scLeased,
